@@ -11,6 +11,7 @@ def handle (j : Json) : Json :=
   | "gin" => Gin.Drv.GinDom.run j
   | "scopes" => Gin.Drv.ScopesDom.run j
   | "parse" => Gin.Drv.ParseDom.run j
+  | "parse2" => Json.mkObj [("runs", Json.arr ((jarr (jfield j "runs")).map Gin.Drv.ParseDom.run).toArray)]
   | d => Json.mkObj [("error", Json.str s!"unknown domain {d}")]
 
 partial def loop (hin : IO.FS.Stream) (hout : IO.FS.Stream) : IO Unit := do
